@@ -20,4 +20,8 @@ sharded logic (used by C11) -/
 theorem tie_c_bounds : cSmallNum * 100 ≤ 123 * cSmallDen ∧ cLinNum * 1000 ≤ 1125 * cLinDen ∧
     (∀ x ∈ cFuseNums, x * 1000 ≤ 1125 * cFuseDen) := by decide
 theorem tie_mix : mixMul1 = 0xff51afd7ed558ccd ∧ mixMul2 = 0xc4ceb9fe1a85ec53 ∧ mixShift = 33 := by decide
+/-- the worker loop of `par_solve` skips an empty shard (`continue;`) instead of terminating
+(`return;`, defect D31): `par_solve_complete` (C07) is stated for the extracted value and proved
+for `true` -/
+theorem par_empty_shard_continues : parEmptyShardContinues = true := by decide
 end Sux.Gen
